@@ -167,7 +167,7 @@ def check_solo(run, sc, i, scn):
             left = sorted(set(a2) - set(b2))
             if left:
                 problems.append("helper file(s) left behind: %r" % left)
-            if j is not None and o2 != {"err": "fault"}:
+            if j is not None and raw[j][0] not in PR.SWALLOWED and o2 != {"err": "fault"}:
                 problems.append("the injected failure did not surface: outcome %r" % (o2,))
             if not problems:
                 # a later parse reflects the current content
@@ -321,7 +321,7 @@ def check_many(run, sc, i):
         o2, _, raw2 = real_run(api, [d2.path(x) for x in names2], {j: "raise"})
         c2 = dict(case, failing_call={"index": j, "call": lab})
         run.case(c2, tag="many:" + lab)
-        if PR.snapshot(d2.d) != b2 or o2 != {"err": "fault"}:
+        if PR.snapshot(d2.d) != b2 or (o2 != {"err": "fault"} and lab not in PR.SWALLOWED):
             run.violation(c2, {"what": "%s with call %d (%s) failing: directory %r -> %r, outcome %r" % (api, j, lab, sorted(b2), listing(d2.d), o2), "calls": raw2})
             return False
         shutil.rmtree(d2.d, ignore_errors=True)
@@ -359,7 +359,7 @@ def check_from_path(run, sc, i):
             o2, _ = PR.outcome_of(lambda: {"nodes": UAGraph.from_path(d2).nodes, "namespaces": []}, ctl)
         c2 = dict(case, failing_call={"index": j, "call": raw[j][0]})
         run.case(c2, tag="from_path:" + raw[j][0])
-        if PR.snapshot(d2) != before or o2 != {"err": "fault"}:
+        if PR.snapshot(d2) != before or (o2 != {"err": "fault"} and raw[j][0] not in PR.SWALLOWED):
             run.violation(c2, {"what": "UAGraph.from_path with call %d (%s) failing: directory -> %r, outcome %r" % (j, raw[j][0], listing(d2), o2)})
             return False
         shutil.rmtree(d2, ignore_errors=True)
